@@ -36,3 +36,27 @@ def compare_tables(c, o):
     if c["smallest"] + len(c["table"]) - 1 < c["shift"] + R + 1:
         return "table ends before the highest attainable score"
     return ""
+
+
+def compare_hits(c, o):
+    """the p-value column of fimo(): every reported (score, p) carries the exact tail probability of the score's bin
+    int(score / bin_size) (either neighbouring bin when the quotient is within 1e-9 of an integer)."""
+    if c.get("hits") is None:
+        return ""
+    if isinstance(c["hits"], str):
+        return "fimo() raised on a valid motif (%s)" % c["hits"]
+    w = c["w"]
+    tot = 4 ** w
+    counts = [hi * (2 ** 30) + lo for (hi, lo) in o["tail"]]
+    R = c["R"]
+
+    def tail_of(score):
+        s = score - c["shift"]
+        return tot if s < 0 else (0 if s > R else counts[s])
+    for sc, p in c["hits"]:
+        q = sc / c["bin_size"]
+        cands = {int(q), int(q - 1e-9 * max(1.0, abs(q))), int(q + 1e-9 * max(1.0, abs(q)))}
+        if not any(abs(p - tail_of(b) / tot) <= 1e-9 * (tail_of(b) / tot) for b in cands):
+            return "fimo() p-value of a hit is not the exact tail probability of its score bin (score %r bin %d: %r vs %d/4^%d)" % (
+                sc, int(q), p, tail_of(int(q)), w)
+    return ""
